@@ -81,6 +81,8 @@ def from_sparse(data, cols, channel_ids):
     if len(channel_ids) != len(np.unique(channel_ids)):
         raise NotImplementedError("Multiple identical requested channels "
                                   "in from_sparse().")
+    # NOTE: signed integers, so that -1 can be appended below also when the ids are unsigned.
+    channel_ids = np.asarray(channel_ids, dtype=np.int64)
     channel_axis = 1
     shape = list(data.shape)
     assert data.ndim >= 2
